@@ -73,9 +73,9 @@ def filter_real(lines):
     out = []
     for l in lines:
         if l.startswith('mockfn '):
-            m = re.match(r'^mockfn (\S+) inputs=(.*?) kind=.*? path=(\S+) default_impl=(\d)$', l)
+            m = re.match(r'^mockfn (\S+) inputs=(.*?) kind=.*? answer=(.*?) path=(\S+) default_impl=(\d)$', l)
             if m:
-                out.append(f"mockfn {m.group(1)} inputs={m.group(2)} path={m.group(3)} default_impl={m.group(4)}")
+                out.append(f"mockfn {m.group(1)} inputs={m.group(2)} answer={m.group(3)} path={m.group(4)} default_impl={m.group(5)}")
             else:
                 out.append(l)
         elif l.startswith(('mod ', 'struct ', 'impl ')):
